@@ -10,6 +10,8 @@
 //! Directives (line comments):
 //!   //@include <file>                         textual include (relative to the template's directory)
 //!   //@ghostcalls a,b,c                       calls to these names get `Tracked(log)` appended            (E3)
+//!   //@matchcalls a,b,c                      an `and_then` / `map` closure whose body calls one of these methods is also spelled out as a
+//!                                             `match` by rule E12 (closures that capture `&mut` fields of self, which Verus does not read)
 //!   //@closure <fn> <ordinal> | <spec>        spec inserted after the parameter list of the n-th closure  (E6)
 //!   //@loop <fn> <ordinal> | <spec>           invariant/decreases inserted before the n-th loop's body    (E6)
 //!   //@replace <fn> | <from> | <to>           declared textual rewrite inside one body (must apply >= 1x) (E5/E7)
@@ -75,6 +77,8 @@ struct Edits<'a> {
     ghost: &'a [String],
     closure_specs: &'a HashMap<usize, String>,
     loop_specs: &'a HashMap<usize, String>,
+    /// method names whose call inside an `and_then` / `map` closure also triggers rule E12 (`//@matchcalls`): closures that capture `&mut self` fields
+    matchcalls: &'a [String],
     closure_no: usize,
     loop_no: usize,
     used_closure: Vec<usize>,
@@ -140,7 +144,7 @@ impl<'a> Edits<'a> {
         let args: Vec<&syn::Expr> = if skip_receiver_arg { args.into_iter().skip(1).collect() } else { args };
         if args.len() != params.len() { return None; }
         let empty = HashMap::new();
-        let mut sub = Edits { src: self.src, helpers: self.helpers, depth: self.depth + 1, inlined: vec![], ghost: self.ghost, closure_specs: &empty, loop_specs: &empty,
+        let mut sub = Edits { src: self.src, helpers: self.helpers, depth: self.depth + 1, inlined: vec![], ghost: self.ghost, matchcalls: self.matchcalls, closure_specs: &empty, loop_specs: &empty,
                               closure_no: 0, loop_no: 0, used_closure: vec![], used_loop: vec![], ins: vec![] };
         sub.visit_block(h.block);
         let br = h.block.span().byte_range();
@@ -177,6 +181,11 @@ impl<'a, 'ast> Visit<'ast> for Edits<'a> {
                 if c.inputs.len() == 1 {
                     let mut g = HasGhostCall { ghost: self.ghost, found: false };
                     g.visit_expr(&c.body);
+                    if !g.found {
+                        let mut g2 = HasGhostCall { ghost: self.matchcalls, found: false };
+                        g2.visit_expr(&c.body);
+                        g.found = g2.found;
+                    }
                     let mut ee = HasEarlyExit(false);
                     ee.visit_expr(&c.body);
                     if g.found && !ee.0 {
@@ -436,6 +445,7 @@ fn main() {
     let root = &args[2];
 
     let mut ghost: Vec<String> = vec![];
+    let mut matchcalls: Vec<String> = vec![];
     let mut closure_specs: HashMap<String, HashMap<usize, String>> = HashMap::new();
     let mut loop_specs: HashMap<String, HashMap<usize, String>> = HashMap::new();
     let mut replaces: HashMap<String, Vec<(String, String, bool)>> = HashMap::new();
@@ -444,6 +454,9 @@ fn main() {
         let t = l.trim();
         if let Some(r) = t.strip_prefix("//@ghostcalls ") {
             ghost.extend(r.split(',').map(|x| x.trim().to_string()).filter(|x| !x.is_empty()));
+        }
+        if let Some(r) = t.strip_prefix("//@matchcalls ") {
+            matchcalls.extend(r.split(',').map(|x| x.trim().to_string()).filter(|x| !x.is_empty()));
         }
         for (pre, map) in [("//@closure ", &mut closure_specs), ("//@loop ", &mut loop_specs)] {
             if let Some(r) = t.strip_prefix(pre) {
@@ -599,6 +612,7 @@ fn main() {
             depth: 0,
             inlined: vec![],
             ghost: &ghost,
+            matchcalls: &matchcalls,
             closure_specs: closure_specs.get(key).unwrap_or(&empty),
             loop_specs: loop_specs.get(key).unwrap_or(&empty),
             closure_no: 0,
